@@ -170,6 +170,45 @@ theorem P_gauss_sum_G_to_F_grid (hp : plain kw) (ps : List (ℝ × ℝ)) (hpos :
     rw [← closed_form_eq p.1 p.2 q[k] ha]
     exact trapezoid_vs_transform p.1 p.2 q[k] ((N : ℝ) * dr) ha hR N hN
 
+/-- P (sums of members, Q → r): the same for the reciprocal-space sum, with the 2/π of the documented convention -/
+theorem P_gauss_sum_F_to_G_grid (hp : plain kw) (ps : List (ℝ × ℝ)) (hpos : ∀ p ∈ ps, 0 < p.2) (N : ℕ) (hN : 0 < N) (dq : ℝ) (hdq : 0 < dq)
+    (r : List ℝ) (k : ℕ) (hk : k < r.length) :
+    |((Transformer.F_to_G kw junk (uGrid N dq) ((uGrid N dq).map (fun Q => (ps.map fun p => gaussF p.1 p.2 Q).sum)) r none).2.1).getD k 0
+        - (ps.map fun p => gaussG p.1 p.2 (r.getD k 0)).sum|
+      ≤ (ps.map fun p => 2 / π * quadBound (p.1 * Real.sqrt π / (4 * p.2 ^ (3 / 2 : ℝ))) (1 / (4 * p.2)) (r.getD k 0) ((N : ℝ) * dq) N).sum := by
+  simp only [Transformer.F_to_G]
+  rw [R_ft_is_trapezoidal kw junk hp N hN dq _ r]
+  have hR : 0 < (N : ℝ) * dq := by positivity
+  simp only [Vec.mulS, List.map_map]
+  simp only [List.getD_eq_getElem?_getD, List.getElem?_map, List.getElem?_eq_getElem hk, Option.map_some, Option.getD_some]
+  simp only [Function.comp, Nat.cast_ofNat, Transc.pi_real]
+  have e := trapezoidal_integral_list_sum (ps.map fun p => gaussF p.1 p.2) (fun x => sin (x * r[k])) N 0 ((N : ℝ) * dq)
+  simp only [List.map_map, Function.comp_def] at e
+  rw [e, mul_comm _ (2 / π), ← List.sum_map_mul_left]
+  apply abs_list_sum_sub_le _ _ _ _ (by simp)
+  clear e
+  induction ps with
+  | nil => simp
+  | cons p ps ih =>
+    simp only [List.map_cons, List.zip_cons_cons]
+    refine List.Forall₂.cons ?_ (ih fun x hx => hpos x (by simp [hx]))
+    have ha : 0 < p.2 := hpos p (by simp)
+    have ha' : 0 < 1 / (4 * p.2) := by positivity
+    have e2 : (fun x => gaussF p.1 p.2 x * sin (x * r[k])) = h (p.1 * Real.sqrt π / (4 * p.2 ^ (3 / 2 : ℝ))) (1 / (4 * p.2)) r[k] := by
+      funext x; simp only [gaussF, h]
+      rw [show -x ^ 2 / (4 * p.2) = -(1 / (4 * p.2)) * x ^ 2 by ring, mul_comm x r[k]]; ring
+    simp only [e2]
+    have hb := trapezoid_vs_transform (p.1 * Real.sqrt π / (4 * p.2 ^ (3 / 2 : ℝ))) (1 / (4 * p.2)) r[k] ((N : ℝ) * dq) ha' hR N hN
+    have hval : 2 / π * ((p.1 * Real.sqrt π / (4 * p.2 ^ (3 / 2 : ℝ))) * (r[k] / (4 * (1 / (4 * p.2))) * (Real.sqrt (π / (1 / (4 * p.2))) * Real.exp (-r[k] ^ 2 / (4 * (1 / (4 * p.2)))))))
+        = gaussG p.1 p.2 r[k] := by
+      have h1 := P_gauss_F_to_G p.1 p.2 r[k] ha
+      have h2 := PystogVerif.Gauss.integral_Ioi_mul_gauss_sin (1 / (4 * p.2)) r[k] ha'
+      rw [← h1, ← h2, ← MeasureTheory.integral_const_mul]
+      congr 2; funext x; simp only [gaussF]
+      rw [show -x ^ 2 / (4 * p.2) = -(1 / (4 * p.2)) * x ^ 2 by ring, mul_comm x r[k]]; ring
+    rw [← hval, ← mul_sub, abs_mul, abs_of_pos (by positivity : (0 : ℝ) < 2 / π)]
+    exact mul_le_mul_of_nonneg_left hb (by positivity)
+
 /-- the bound is explicit and small on an everyday grid: A = a = 1, Q = 1, R = 8, N = 8000 (dr = 0.001) gives less than 2·10⁻³ (and a quarter of that with half the step) -/
 example : quadBound 1 1 1 8 8000 < 2 / 1000 := by
   unfold quadBound zeta
